@@ -16,6 +16,7 @@ import (
 	"time"
 
 	"github.com/google/inverting-proxy/agent/utils"
+	"github.com/google/inverting-proxy/verifhook"
 
 	"verifharness/fakes"
 	"verifharness/hx"
@@ -444,6 +445,44 @@ func uploadDriver(a *Args) {
 				}
 			}
 		}
+	}
+	// gated replay of the Upload attack counterexample (StaleReader): attempt 1 is failed before any body
+	// byte exists, so its transport writer stays parked in the source read; the reader of attempt 2 is held
+	// at the gate in front of ITS source read until the stale one has taken the first piece
+	for round := 0; round < 3; round++ {
+		n++
+		h := sizes[2] // "mid"
+		script := []upStep{{"5xx-keep", "body0"}, {"ack", "end"}}
+		hx.Reset(fmt.Sprintf("upload-%d", n), "upload:[5xx-keep@body0,ack@end]:gatedstale")
+		var gmu sync.Mutex
+		sourceCalls := 0
+		staleBooked := make(chan struct{})
+		var once sync.Once
+		verifhook.GateFunc = func(point string, kv ...interface{}) {
+			switch point {
+			case "brs.source":
+				gmu.Lock()
+				sourceCalls++
+				k := sourceCalls
+				gmu.Unlock()
+				if k == 2 {
+					// second reader to reach its source read = attempt 2: wait for the stale reader
+					select {
+					case <-staleBooked:
+					case <-time.After(3 * time.Second):
+					}
+				}
+			case "brs.book":
+				once.Do(func() { close(staleBooked) })
+			}
+		}
+		fs := newFaultServer(script, refs[h.Name])
+		ok, blocked, _ := runForwarder(fs.url(), h, fmt.Sprintf("req-%d", n), nil)
+		verifhook.GateFunc = nil
+		hx.Emit("CloseDone", "ok", ok, "blocked", blocked)
+		time.Sleep(5 * time.Millisecond)
+		fs.close()
+		res.Case("gated:5xx-keep@body0,ack@end:mid", map[string]interface{}{"script": "gated stale reader replay", "round": round})
 	}
 	for _, sc := range cases.Scripts {
 		var script []upStep
